@@ -386,6 +386,6 @@ PARTS = [
     Part("channels", eval_channels, {"quick": 160, "thorough": 4000}, strategy=lambda tier: channel_case(tier), min_nontrivial={"quick": 40, "thorough": 1000}),
     Part("sheetnames", eval_sheetnames, {"quick": 3000, "thorough": 100000}, strategy=lambda tier: sheet_labels(), min_nontrivial={"quick": 1000, "thorough": 30000}),
 ]
-MIN_SHARE = {"channels": {"wrapper-reloaded": 0.1, "awkward-name": 0.2, "zones>=2": 0.3, "ch:xlsx": 0.2, "ch:csvdir": 0.2, "ch:json": 0.2}}
+MIN_SHARE = {"channels": {"wrapper-reloaded": 0.1, "awkward-name": 0.2, "zones>=2": 0.22, "ch:xlsx": 0.17, "ch:csvdir": 0.17, "ch:json": 0.2}}
 
 FUZZ = {"sheetnames": None}  # parts also driven by the coverage-guided supplement (thorough tier)
